@@ -1045,3 +1045,5 @@ def _users(r, obs, rep, F):
 
 
 RULE += (' Added: arguments with sharing inside (one sub-dictionary object under two keys), histories of the value-less string form of update_recursively with in-place changes in between, update_nested chains of up to 14 levels.')
+
+RULE += (' Round 10: chains nested 20..180 deep that differ near the bottom; dictionaries of 17..300 keys per level.')
